@@ -299,4 +299,139 @@ theorem exts_bad_length_rejected (v : Bytes) (h : v.length % 8 ≠ 0) : decExts 
 example : decExts (encExts [.color 5, .twoOctetAs 2 65000 100 true]) =
     some [some (.color 5), some (.twoOctetAs 2 65000 100 true)] := by decide
 
+
+/-! ## IPv6-address-specific extended communities (20 octets) -/
+
+private theorem padTo_self {n : Nat} {v : Bytes} (h : v.length = n) : padTo n v = v := by
+  simp [padTo, ← h]
+
+private theorem len16 {v : Bytes} (h : v.length = 16) :
+    ∃ a0 a1 a2 a3 a4 a5 a6 a7 a8 a9 b0 b1 b2 b3 b4 b5,
+      v = [a0, a1, a2, a3, a4, a5, a6, a7, a8, a9, b0, b1, b2, b3, b4, b5] := by
+  match v, h with
+  | [a0, a1, a2, a3, a4, a5, a6, a7, a8, a9, b0, b1, b2, b3, b4, b5], _ =>
+    exact ⟨a0, a1, a2, a3, a4, a5, a6, a7, a8, a9, b0, b1, b2, b3, b4, b5, rfl⟩
+
+private theorem len19 {v : Bytes} (h : v.length = 19) :
+    ∃ a0 a1 a2 a3 a4 a5 a6 a7 a8 a9 b0 b1 b2 b3 b4 b5 b6 b7 b8,
+      v = [a0, a1, a2, a3, a4, a5, a6, a7, a8, a9, b0, b1, b2, b3, b4, b5, b6, b7, b8] := by
+  match v, h with
+  | [a0, a1, a2, a3, a4, a5, a6, a7, a8, a9, b0, b1, b2, b3, b4, b5, b6, b7, b8], _ =>
+    exact ⟨a0, a1, a2, a3, a4, a5, a6, a7, a8, a9, b0, b1, b2, b3, b4, b5, b6, b7, b8, rfl⟩
+
+theorem ip6ext_encode_length (e : Ip6ExtComm) (h : Ip6Canon e) : (encIp6Ext e).length = 20 := by
+  cases e with
+  | specific st addr la tr => obtain ⟨_, h2, _, _⟩ := h; simp [encIp6Ext, padTo_self h2, h2, be16_eq]
+  | redirect addr la => obtain ⟨h2, _, _⟩ := h; simp [encIp6Ext, padTo_self h2, h2, be16_eq]
+  | unknown t v => obtain ⟨_, _, _, h4, _, _⟩ := h; simp [encIp6Ext, h4]
+
+/-- decode ∘ encode = id on canonical 20-octet communities, whatever follows in the buffer -/
+theorem ip6ext_decode_encode (e : Ip6ExtComm) (rest : Bytes) (h : Ip6Canon e) :
+    decIp6Ext (encIp6Ext e ++ rest) = some e := by
+  cases e with
+  | specific st addr la tr =>
+    obtain ⟨h1, h2, _, h4⟩ := h
+    obtain ⟨a0, a1, a2, a3, a4, a5, a6, a7, a8, a9, b0, b1, b2, b3, b4, b5, rfl⟩ := len16 h2
+    cases tr <;>
+      simp [encIp6Ext, decIp6Ext, padTo, tbit, at', be16_eq, rd16_2, Nat.mod_eq_of_lt h1, r16 _ h4]
+  | redirect addr la =>
+    obtain ⟨h2, _, h4⟩ := h
+    obtain ⟨a0, a1, a2, a3, a4, a5, a6, a7, a8, a9, b0, b1, b2, b3, b4, b5, rfl⟩ := len16 h2
+    simp [encIp6Ext, decIp6Ext, padTo, at', be16_eq, rd16_2, r16 _ h4]
+  | unknown t v =>
+    obtain ⟨h1, h2, h3, h4, _, h6⟩ := h
+    obtain ⟨a0, a1, a2, a3, a4, a5, a6, a7, a8, a9, b0, b1, b2, b3, b4, b5, b6, b7, b8, rfl⟩ := len19 h4
+    by_cases c : t = 128
+    · subst c
+      have := h6 rfl
+      simp at this
+      simp [encIp6Ext, decIp6Ext, at', this]
+    · simp [encIp6Ext, decIp6Ext, at', Nat.mod_eq_of_lt h1, h2, h3, c]
+
+/-- for ALL octet strings: what the 20-octet decoder yields is canonical -/
+theorem ip6ext_decoded_is_canon (b : Bytes) (e : Ip6ExtComm) (hb : ∀ x ∈ b, x < 256)
+    (h : decIp6Ext b = some e) : Ip6Canon e := by
+  by_cases hl : b.length < 20
+  · simp [decIp6Ext, hl] at h
+  · have hm : ∀ (i k : Nat), ∀ x ∈ ((b.take 20).drop i).take k, x < 256 := fun i k x hx =>
+      hb x (List.mem_of_mem_take (List.mem_of_mem_drop (List.mem_of_mem_take hx)))
+    have hat : ∀ i, at' (b.take 20) i < 256 := by
+      intro i
+      unfold at'
+      by_cases hi : i < (b.take 20).length
+      · have : (b.take 20).getD i 0 = (b.take 20)[i] := by
+          rw [List.getD_eq_getElem?_getD, List.getElem?_eq_getElem hi]; rfl
+        rw [this]
+        exact hb _ (List.mem_of_mem_take (List.getElem_mem hi))
+      · have : (b.take 20).getD i 0 = 0 := by
+          rw [List.getD_eq_getElem?_getD, List.getElem?_eq_none (Nat.le_of_not_lt hi)]; rfl
+        rw [this]; omega
+    have hrd : rd16 ((b.take 20).drop 18) < 65536 := by
+      have hlen : ((b.take 20).drop 18).length = 2 := by simp; omega
+      match hd : (b.take 20).drop 18, hlen with
+      | [x, y], _ =>
+        have hx : x < 256 := hb x (List.mem_of_mem_take (List.mem_of_mem_drop (by rw [hd]; simp)))
+        have hy : y < 256 := hb y (List.mem_of_mem_take (List.mem_of_mem_drop (by rw [hd]; simp)))
+        simp [rd16_2]; omega
+    simp only [decIp6Ext, if_neg hl, beq_iff_eq, Bool.and_eq_true] at h
+    by_cases c0 : at' (b.take 20) 0 = 0
+    · rw [if_pos c0] at h; cases h
+      exact ⟨hat 1, by simp; omega, hm 2 16, hrd⟩
+    rw [if_neg c0] at h
+    by_cases c1 : at' (b.take 20) 0 = 64
+    · rw [if_pos c1] at h; cases h
+      exact ⟨hat 1, by simp; omega, hm 2 16, hrd⟩
+    rw [if_neg c1] at h
+    by_cases c2 : at' (b.take 20) 0 = 128 ∧ at' (b.take 20) 1 = 11
+    · rw [if_pos c2] at h; cases h
+      exact ⟨by simp; omega, hm 2 16, hrd⟩
+    rw [if_neg c2] at h
+    cases h
+    refine ⟨hat 0, c0, c1, by simp; omega, hm 1 19, ?_⟩
+    intro h128 h11
+    apply c2
+    refine ⟨h128, ?_⟩
+    have hlen : 2 ≤ (b.take 20).length := by simp; omega
+    revert h11
+    unfold at'
+    match hd : b.take 20, hlen with
+    | x :: y :: r, _ => simp
+
+/-- re-serialising a decoded 20-octet community is a fixpoint, for ALL octet strings -/
+theorem ip6ext_reserialise_fixpoint (b : Bytes) (e : Ip6ExtComm) (hb : ∀ x ∈ b, x < 256)
+    (h : decIp6Ext b = some e) (rest : Bytes) :
+    (encIp6Ext e).length = 20 ∧ decIp6Ext (encIp6Ext e ++ rest) = some e :=
+  ⟨ip6ext_encode_length e (ip6ext_decoded_is_canon b e hb h),
+   ip6ext_decode_encode e rest (ip6ext_decoded_is_canon b e hb h)⟩
+
+theorem ip6exts_length : ∀ l : List Ip6ExtComm, (∀ e ∈ l, Ip6Canon e) →
+    (encIp6Exts l).length = 20 * l.length
+  | [], _ => rfl
+  | e :: es, h => by
+    have h1 := ip6ext_encode_length e (h e (by simp))
+    have h2 := ip6exts_length es (fun x hx => h x (by simp [hx]))
+    simp [encIp6Exts, h1, h2]; omega
+
+private theorem decIp6ExtsAux_enc : ∀ (l : List Ip6ExtComm) (fuel : Nat), (∀ e ∈ l, Ip6Canon e) →
+    l.length ≤ fuel → decIp6ExtsAux fuel (encIp6Exts l) = some l
+  | [], fuel, _, _ => by cases fuel <;> simp [decIp6ExtsAux, encIp6Exts]
+  | e :: es, 0, _, hf => by simp at hf
+  | e :: es, fuel + 1, h, hf => by
+    have hc := h e (by simp)
+    have h1 := ip6ext_encode_length e hc
+    have ih := decIp6ExtsAux_enc es fuel (fun x hx => h x (by simp [hx])) (by simpa using hf)
+    have hlen : ¬ (encIp6Ext e ++ encIp6Exts es).length < 20 := by simp [h1]
+    have hdrop : (encIp6Ext e ++ encIp6Exts es).drop 20 = encIp6Exts es := by
+      rw [← h1]; exact List.drop_left
+    simp only [decIp6ExtsAux, encIp6Exts, if_neg hlen, ip6ext_decode_encode e (encIp6Exts es) hc, hdrop, ih]
+    rfl
+
+/-- PathAttributeIP6ExtendedCommunities: DecodeFromBytes of the serialised value gives the list back -/
+theorem ip6exts_decode_encode (l : List Ip6ExtComm) (h : ∀ e ∈ l, Ip6Canon e) :
+    decIp6Exts (encIp6Exts l) = some l := by
+  have hl := ip6exts_length l h
+  have : ¬ ((encIp6Exts l).length % 20 != 0) = true := by simp [hl]
+  simp only [decIp6Exts, if_neg this]
+  exact decIp6ExtsAux_enc l _ h (by omega)
+
 end C04
